@@ -217,7 +217,16 @@ def run(ctx):
         if exp == ["ValueError"]:
             any_invalid = True
         per_shot.append(exp[-1])
-    res = QsysResult(shots if ch.coin(1, 2, "as-shots") else [list(e) for e in logs])
+    if shots and ch.coin(1, 4, "repeat-shot-object"):
+        # the very same shot object listed again (e.g. a result assembled by concatenating lists)
+        j = ch.draw(len(shots), "which-shot")
+        shots.append(shots[j])
+        logs.append(logs[j])
+        per_shot.append(per_shot[j])
+        ctx.probe("same_shot_object_listed_twice")
+        res = QsysResult(shots)
+    else:
+        res = QsysResult(shots if ch.coin(1, 2, "as-shots") else [list(e) for e in logs])
     ctx.steps += 1
     if not any_ambiguous:
         for sn in (False, True):
